@@ -51,7 +51,7 @@ def run(tier: str, seed: int, rep: Report, model: Model) -> dict:
             rec = {"case": b, "reference": ref, "impl": im, "model": mo}
             if im["v"] == "harness":
                 rep.violation({"what": "the call did not finish", **rec})
-            elif im["v"] == "accept" and ref["v"] != "accept":
+            elif im["v"] == "accept" and ref["v"] not in ("accept", "unknown"):
                 rep.violation({"what": "a tuple element that violates its annotation (in the shared context) was accepted", **rec})
             elif ref["v"] == "accept" and im["v"] not in ("accept", "identity"):
                 rep.violation({"what": "a conforming tuple was rejected", **rec})
